@@ -7,22 +7,22 @@ NOTE = ("Assumes: extraction rules R1-R13 (DESIGN 3.3) are faithful; sequential 
         "peers spec-conformant; the assume/guarantee meta-argument of DESIGN 2.7; partial correctness; Verus/Z3. ")
 CLAIMS = {
     # id: (operators covered, text)
-    "C01": ("from_iter, interval, map, filter, scan, take, skip, concat, flatten, merge, combine", "greet-once / greet-first are separate call-site obligations (gates) at every delivery to the sink, discharged for all histories with conformant peers"),
-    "C02": ("from_iter, interval, map, filter, scan, take, skip, concat, flatten, merge, combine", "nothing-after-termination gate at every delivery plus the termination-count invariant part"),
-    "C03": ("from_iter, interval, map, filter, scan, take, skip, concat, flatten, merge, combine", "nothing-after-disposal gate at every delivery; the ghost phase flips to EndedBySink on entry of the sink talkback"),
-    "C04": ("map, filter, scan, take, skip, concat, flatten, merge, combine, for_each", "gates on every call to an upstream source/talkback (subscribed once, never before greeting, terminated at most once, not after it ended) and disposal postconditions"),
-    "C05": ("map, filter, scan, take, skip, concat, flatten, merge, combine", "postcondition of the upstream handler on Error: sink ended with that error id; invariant part fwd"),
-    "C07": ("map, filter, scan, take, skip, concat, flatten, merge, combine", "data-relation invariant parts over Seq: map_values / filter / running fold / take / skip, with uninterpreted user functions"),
-    "C08": ("merge (profile R: members greet inside the subscribing call; late greeters not yet covered)", "arrival-order data relation, counters tied to member phases by recursive counts with lemmas, Pull-reaches-every-live-member postcondition via a loop invariant, completion gate"),
-    "C09": ("concat (n >= 1; n == 0 verified separately, finding F6)", "lazy-subscription gate (member k+1 only after member k completed), member-order data relation over a recursive concatenation, re-issued Pull postcondition"),
-    "C10": ("combine (arities 1, 2, 3: one generated contract per arity of the macro)", "latest-value tuple gate at every emission (COMBINE_TUPLE), exactly-one-tuple-per-datum counter invariant, counters tied to member phases, completion gate, Pull-reaches-every-running-member postcondition"),
-    "C11": ("flatten", "generation ghost: previous-inner-disposed gate at every inner subscription, routing gate on Pulls, completion gate, one Pull per inner greeting, arrival-order data relation"),
-    "C13": ("from_iter, scan, take, skip, filter, concat, for_each", "every cell is allocated inside the subscription handler (alloc flags in the postcondition of subscribe); closures outside the handler must read exactly as recorded"),
-    "C14": ("from_iter, interval, map, filter, scan, take, skip, concat, flatten, merge, combine", "pullable profile (c.pullable): no-unrequested-data gate and outstanding-demand invariant parts"),
-    "C15": ("from_iter", "iterator-order, one-next-per-item and no-nested-delivery (ddepth) obligations on the extracted loop closure with a loop invariant"),
-    "C16": ("interval", "the async task is lifted as a function with `.await` as a yield to the verified environment: k-th delivery is k, nothing after the disposal flag is seen, spawn failure yields exactly one Error; real time (one yield = one period; first tick after the greeting) and counter wrap-around are stated assumptions"),
-    "C17": ("from_iter, interval, map, filter, scan, take, skip, concat, flatten, merge, combine, for_each", "Verus proves every panic!/expect/unwrap/overflow site in the extracted bodies unreachable"),
-    "C20": ("from_iter, interval, map, filter, scan, take, skip, concat, flatten, merge, combine, for_each", "the same contracts are discharged on the bodies extracted from the --features tracing expansion (real call! arm); user-closure call counters pin single evaluation"),
+    "C01": ("", "greet-once / greet-first are separate call-site obligations (gates) at every delivery to the sink, discharged for all histories with conformant peers"),
+    "C02": ("", "nothing-after-termination gate at every delivery plus the termination-count invariant part"),
+    "C03": ("", "nothing-after-disposal gate at every delivery; the ghost phase flips to EndedBySink on entry of the sink talkback"),
+    "C04": ("", "gates on every call to an upstream source/talkback (subscribed once, never before greeting, terminated at most once, not after it ended) and disposal postconditions"),
+    "C05": ("", "postcondition of the upstream handler on Error: sink ended with that error id; invariant part fwd"),
+    "C07": ("", "data-relation invariant parts over Seq: map_values / filter / running fold / take / skip, with uninterpreted user functions"),
+    "C08": ("profile R: members greet inside the subscribing call; late greeters not yet covered", "arrival-order data relation, counters tied to member phases by recursive counts with lemmas, Pull-reaches-every-live-member postcondition via a loop invariant, completion gate"),
+    "C09": ("n >= 1; n == 0 is the unit concat0, finding F6", "lazy-subscription gate (member k+1 only after member k completed), member-order data relation over a recursive concatenation, re-issued Pull postcondition"),
+    "C10": ("one generated contract per arity 1..3 of the macro", "latest-value tuple gate at every emission (COMBINE_TUPLE), exactly-one-tuple-per-datum counter invariant, counters tied to member phases, completion gate, Pull-reaches-every-running-member postcondition"),
+    "C11": ("", "generation ghost: previous-inner-disposed gate at every inner subscription, routing gate on Pulls, completion gate, one Pull per inner greeting, arrival-order data relation"),
+    "C13": ("", "every cell is allocated inside the subscription handler (alloc flags in the postcondition of subscribe); closures outside the handler must read exactly as recorded"),
+    "C14": ("", "pullable profile (c.pullable): no-unrequested-data gate and outstanding-demand invariant parts"),
+    "C15": ("", "iterator-order, one-next-per-item and no-nested-delivery (ddepth) obligations on the extracted loop closure with a loop invariant"),
+    "C16": ("", "the async task is lifted as a function with `.await` as a yield to the verified environment: k-th delivery is k, nothing after the disposal flag is seen, spawn failure yields exactly one Error; real time (one yield = one period; first tick after the greeting) and counter wrap-around are stated assumptions"),
+    "C17": ("", "Verus proves every panic!/expect/unwrap/overflow site in the extracted bodies unreachable"),
+    "C20": ("", "the same contracts are discharged on the bodies extracted from the --features tracing expansion (real call! arm); user-closure call counters pin single evaluation"),
 }
 NA = {
     "C06": "pipeline composition not built yet (per-stage contracts exist; the chain lemma is pending)",
@@ -30,8 +30,21 @@ NA = {
     "C18": "thread-interleaving profile not built yet",
     "C19": "thread-interleaving profile not built yet",
 }
+import glob, re as _re
+COVER = {}
+for f in sorted(glob.glob(os.path.join(V, "contracts", "*.rs"))):
+    t = open(f).read()
+    m = _re.search(r"^//@op\s+(\w+)", t, _re.M)
+    pr = _re.search(r"^//@properties[ \t]+(.+)$", t, _re.M)
+    if m and pr:
+        name = os.path.basename(f)[:-3]
+        for pid in pr.group(1).split():
+            COVER.setdefault(pid, [])
+            if name not in COVER[pid]:
+                COVER[pid].append(name)
 checks = []
-for pid, (ops, text) in sorted(CLAIMS.items()):
+for pid, (ops_note, text) in sorted(CLAIMS.items()):
+    ops = ", ".join(COVER.get(pid, [])) + (f" ({ops_note})" if ops_note else "")
     checks.append({
         "property_id": pid,
         "quick_cmd": f"python3 bin/check.py --property {pid} --tier quick",
